@@ -78,8 +78,22 @@ def targeted_case(g, j):
     parameter whose context value is None; a list key rewritten element-wise equal."""
     k = g.rng.choice(["factor", "addend", "a", "seen"])
     v = g.rng.choice([1, 2, 3])
-    pat = j % 10
-    if pat == 7:
+    pat = j % 12
+    if pat == 11:
+        # a node takes a LIST parameter from the context; a later node of the same run appends to that very list in place:
+        # the earlier node's SER must report the value it was actually passed
+        nodes = [{"processor": "VSrc", "parameters": {"value": float(v)}}, {"processor": "VWeightedScale"},
+                 {"processor": "VValueProbe", "context_key": "seen"}, {"processor": "VRemember"}, {"processor": "VWeightedScale"}]
+        if g.chance(0.5):
+            nodes.append({"processor": "VRemember"})
+        ctx = {"weights": [0.5, 1.5] + ([float(g.rng.choice([2, 4]))] if g.chance(0.5) else [])}
+    elif pat == 10:
+        # a processor that rewrites an EXISTING key which is inside its write whitelist but not among the keys it declares
+        # as created (twice, with a probe in between): the update is part of the actual context difference
+        nodes = [{"processor": "VSrc", "parameters": {"value": float(v)}}, {"processor": "VTally"},
+                 {"processor": "VValueProbe", "context_key": "seen"}, {"processor": "VTally"}, {"processor": "VAddDefault"}]
+        ctx = {"tally": float(g.rng.choice([0, 3, 10])), "note": 0.5} if g.chance(0.7) else {"tally": 2.0}
+    elif pat == 7:
         # long values (repr far beyond 200 characters) that a node changes ONLY IN THE TAIL: a 60-item list in the context,
         # a 50-item collection in the data channel
         nodes = [{"processor": "VCollSrc", "parameters": {"n": 50, "start": 1000.5}}, {"processor": "VCtxBumpLast"},
